@@ -48,6 +48,8 @@ type loopObj struct {
 	kind   string
 	f      sonic.FileDescriptor // the sonic object (Conn or File)
 	l      sonic.Listener       // kind lsn
+	pc     sonic.PacketConn     // kind pkt
+	pcPeer net.PacketConn       // kind pkt: harness side
 	dials  []net.Conn           // kind lsn: connections the harness dialled
 	peer   net.Conn             // sock: harness side
 	peerFd int                  // piper: write end; pipew: read end
@@ -73,12 +75,18 @@ func (o *loopObj) sonicObj() any {
 	if o.kind == "lsn" {
 		return o.l
 	}
+	if o.kind == "pkt" {
+		return o.pc
+	}
 	return o.f
 }
 
 func (o *loopObj) rawFd() int {
 	if o.kind == "lsn" {
 		return o.l.RawFd()
+	}
+	if o.kind == "pkt" {
+		return o.pc.RawFd()
 	}
 	return o.f.RawFd()
 }
@@ -165,6 +173,16 @@ func (d *loopDrv) newObj(id int, kind string) {
 			panic(err)
 		}
 		o.l = l
+	case "pkt":
+		pc, err := sonic.NewPacketConn(d.ioc, "udp", "127.0.0.1:0")
+		if err != nil {
+			panic(err)
+		}
+		pp, err := net.ListenPacket("udp", "127.0.0.1:0")
+		if err != nil {
+			panic(err)
+		}
+		o.pc, o.pcPeer = pc, pp
 	case "reg":
 		o.path = filepath.Join(d.dir, fmt.Sprintf("reg%d", id))
 		if err := os.WriteFile(o.path, patternBytes(1, 64), 0o600); err != nil {
@@ -201,6 +219,24 @@ func (d *loopDrv) exec(a []string) {
 			})
 			return
 		}
+		if o.kind == "pkt" {
+			cb := d.cb(id)
+			switch a[1] {
+			case "read":
+				o.pc.AsyncReadFrom(b, func(err error, n int, _ net.Addr) { cb(err, n) })
+			case "readall":
+				o.pc.AsyncReadAllFrom(b, func(err error, n int, _ net.Addr) { cb(err, n) })
+			default:
+				o.pc.AsyncWriteTo(b, o.pcPeer.LocalAddr(), func(err error) {
+					if err != nil {
+						cb(err, 0)
+					} else {
+						cb(nil, n)
+					}
+				})
+			}
+			return
+		}
 		switch a[1] {
 		case "read":
 			o.f.AsyncRead(b, d.cb(id))
@@ -219,6 +255,8 @@ func (d *loopDrv) exec(a []string) {
 		var err error
 		if o := d.objs[atoi(a[1])]; o.kind == "lsn" {
 			err = o.l.Close()
+		} else if o.kind == "pkt" {
+			err = o.pc.Close()
 		} else {
 			err = o.f.Close()
 		}
@@ -285,6 +323,10 @@ func runLoop(c *Case) []string {
 			}
 			if o.l != nil {
 				_ = o.l.Close()
+			}
+			if o.pc != nil {
+				_ = o.pc.Close()
+				_ = o.pcPeer.Close()
 			}
 			for _, c := range o.dials {
 				_ = c.Close()
@@ -371,6 +413,19 @@ func runLoop(c *Case) []string {
 						}
 						o.dials = append(o.dials, c)
 					}
+				} else if o.kind == "pkt" {
+					// n bytes as datagrams of 4 bytes: the scripts read packet conns 4 bytes at a time
+					// the conn may report the address it was asked for (port 0): ask the socket
+					sa, err := syscall.Getsockname(o.pc.RawFd())
+					if err != nil {
+						panic(err)
+					}
+					dst := &net.UDPAddr{IP: net.IPv4(127, 0, 0, 1), Port: sa.(*syscall.SockaddrInet4).Port}
+					for k := 0; k+4 <= n; k += 4 {
+						if _, err := o.pcPeer.WriteTo(patternBytes(7+k, 4), dst); err != nil {
+							panic(err)
+						}
+					}
 				} else if o.peer != nil {
 					_, _ = o.peer.Write(patternBytes(7, n))
 				} else {
@@ -411,7 +466,14 @@ func runLoop(c *Case) []string {
 			case "drain":
 				n := atoi(a[2])
 				b := make([]byte, n)
-				if o.peer != nil {
+				if o.kind == "pkt" {
+					_ = o.pcPeer.SetReadDeadline(time.Now().Add(20 * time.Millisecond))
+					for k := 0; k < n; k += 4 {
+						if _, _, err := o.pcPeer.ReadFrom(b); err != nil {
+							break
+						}
+					}
+				} else if o.peer != nil {
 					_ = o.peer.SetReadDeadline(time.Now().Add(200 * time.Millisecond))
 					_, _ = io.ReadFull(o.peer, b)
 				} else {
